@@ -144,6 +144,7 @@ var seedExpectations = []seedExpect{
 	{"C17-f", "C17", "bounds.sameslice", "hlsl/internal/codegen.Writer.writeEPOutputStruct:fragEP.Module.Types[arg.Type]#1"},
 	// seventh batch (-g)
 	{"C06-g", "C06", "ptr.sharedaddr", "tryFoldVectorMath:&h"},
+	{"C18-g", "C18", "builtin.direction", "psvSemanticForBinding:if:BuiltinSampleMask"},
 	{"C07-g", "C07", "layout.arrayround", "typeAlignmentAndSize:ArrayType"},
 	{"C03-g", "C03", "emit.loopbound", "writeWorkgroupZeroInit:for"},
 	{"C10-g", "C10", "abort.discardok", "Parser.postfix:ident"},
